@@ -150,7 +150,7 @@ structure Coll where
   periods : List PPeriod := []
   last : Option (Num × Num) := none
   kernels : List Period := []
-deriving Repr
+deriving DecidableEq, Repr
 
 /-- `needle in hay` on character lists -/
 def isInfix (needle : List Char) : List Char → Bool
@@ -173,8 +173,7 @@ def collect1 (c : Coll) (e : REv) : Coll :=
           | none => c.periods
         { c with periods := periods, last := some (ts, w) }
     else if e.ph = "X" ∧ containsStr (e.name.getD "") "Cmpt Exec" then
-      let d := e.dur.getD 0
-      if 0 < d then { c with kernels := c.kernels ++ [(ts, ts + d)] } else c
+      if 0 < e.dur.getD 0 then { c with kernels := c.kernels ++ [(ts, ts + e.dur.getD 0)] } else c
     else c
 
 def collect (evs : List REv) : Coll := evs.foldl collect1 {}
